@@ -1,0 +1,44 @@
+//go:build verif
+
+// Package verifbridge exposes internal constructors and the verification hooks
+// to the external model-based conformance harness. It only exists under the
+// "verif" build tag.
+package verifbridge
+
+import (
+	"time"
+
+	"github.com/go-git/go-git/v6/internal/sharedfile"
+	"github.com/go-git/go-git/v6/internal/verifhook"
+	"github.com/go-git/go-git/v6/x/fdpool"
+)
+
+// ReadAtCloser is sharedfile.ReadAtCloser.
+type ReadAtCloser = sharedfile.ReadAtCloser
+
+// SharedFile is sharedfile.SharedFile.
+type SharedFile = sharedfile.SharedFile
+
+// NewSharedFile is sharedfile.NewWithPool.
+func NewSharedFile(open func() (ReadAtCloser, error), grace time.Duration, pool *fdpool.Pool) *SharedFile {
+	return sharedfile.NewWithPool(open, grace, pool)
+}
+
+// InstallHooks installs the emit / yield hook functions (nil, nil removes them).
+func InstallHooks(emit func(obj any, ev string, fields []int64), yield func(obj any, point string)) {
+	verifhook.Install(emit, yield)
+}
+
+// PoolEvent unpacks the payload of a pool hook event: the pool, the member the
+// step is about, and the LRU order (most recently used first). ok is false if
+// obj is not a pool event.
+func PoolEvent(obj any) (p *fdpool.Pool, about any, lru []any, ok bool) {
+	e, is := obj.(interface {
+		VerifMembers() (*fdpool.Pool, []any)
+	})
+	if !is {
+		return nil, nil, nil, false
+	}
+	p, ms := e.VerifMembers()
+	return p, ms[0], ms[1:], true
+}
